@@ -182,37 +182,34 @@ def _find_shared_nodes(
   # node is also used within sub-fixtures, it's a shared node.
   daglish.BasicTraversal.run(traverse, top_level_fn)
 
-  # 2nd pass: find out shared nodes within sub-fixtures
-  ancestor_fixture = {}
-  sub_fixture_values = list(sub_fixtures.values())
-  for idx, fixture in enumerate(sub_fixture_values):
-    for value, path in daglish.iterate(fixture, memoized=False):
+  # 2nd pass: find out shared nodes within sub-fixtures. A node belongs to a
+  # sub-fixture if it can be reached from it without passing through another
+  # sub-fixture (if sub-fixture A contains sub-fixture B, nodes used only within
+  # B belong to B alone; a node used within B and directly by A belongs to
+  # both). Nodes that belong to several sub-fixtures, or to a sub-fixture and
+  # the top-level fixture, are shared.
+  owners = {}
+  first_seen = {}
+  for idx, fixture in enumerate(sub_fixtures.values()):
+
+    def visit(value: Any, state: daglish.State, fixture=fixture, idx=idx):
+      if id(value) in sub_fixture_ids and value is not fixture:
+        return value
       if not daglish.is_unshareable(value):
-        used_by_sub_fixture = False
-        if id(value) in ancestor_fixture:
-          if ancestor_fixture[id(value)] != idx:
-            # Check if the node is shared among multiple sub-fixtures.
-            # If sub-fixture A contains sub-fixture B, nodes within B should
-            # not be classified as shared if they are not used somewhere else.
-            ancestor = ancestor_fixture[id(value)]
-            ancestor_id = id(sub_fixture_values[ancestor])
-            value_id = id(sub_fixture_values[idx])
-            if _is_super_ancestor(
-                ancestor_id, {value_id}, node_to_parents_by_id
-            ):
-              ancestor_fixture[id(value)] = idx
-            elif not _is_super_ancestor(
-                value_id, {ancestor_id}, node_to_parents_by_id
-            ):
-              used_by_sub_fixture = True
-        else:
-          ancestor_fixture[id(value)] = idx
-        used_by_top_fixture = id(value) in top_fixture_node_ids
-        if used_by_top_fixture or used_by_sub_fixture:
-          # Do not identify user specified sub-fixtures as shared nodes
-          if id(value) not in sub_fixture_ids:
-            shared_nodes[id(value)] = value
-            shared_node_paths[id(value)] = path
+        owners.setdefault(id(value), set()).add(idx)
+        first_seen.setdefault(id(value), (value, state.current_path))
+      return state.map_children(value)
+
+    daglish.BasicTraversal.run(visit, fixture)
+
+  for value_id, fixture_indices in owners.items():
+    used_by_top_fixture = value_id in top_fixture_node_ids
+    if used_by_top_fixture or len(fixture_indices) > 1:
+      # Do not identify user specified sub-fixtures as shared nodes
+      if value_id not in sub_fixture_ids:
+        shared_nodes[value_id], shared_node_paths[value_id] = first_seen[
+            value_id
+        ]
 
   return shared_nodes, shared_node_paths
 
